@@ -16,7 +16,7 @@ from vlib.coqfmt import qlit, coq_list, coq_bool, coq_option, natlit, zlit
 
 POLY_MODELS = ("linear", "quadratic", "polynomial")
 CURVE_MODELS = ("userquad", "exponential", "gaussian")
-MODES = ("lists", "arrays", "marray", "dataset", "dataset_method", "kwargs")
+MODES = ("lists", "arrays", "marray", "marray_kwerr", "dataset", "dataset_method", "kwargs")
 EXN = {"ValueError": "EValue", "TypeError": "EType"}
 
 
@@ -434,6 +434,9 @@ def call_fit(case):
         xa = q.MeasurementArray(xs, xerr) if xerr is not None else q.MeasurementArray(xs)
         ya = q.MeasurementArray(ys, yerr) if yerr is not None else q.MeasurementArray(ys)
         return q.fit(xa, ya, model, **kw)
+    if mode == "marray_kwerr":
+        # MeasurementArrays created without uncertainties, the uncertainties given to fit()
+        return q.fit(q.MeasurementArray(xs), q.MeasurementArray(ys), model, **errkw(), **kw)
     if mode == "dataset":
         return q.fit(q.XYDataSet(xs, ys, **errkw()), model, **kw)
     if mode == "dataset_method":
